@@ -166,3 +166,14 @@ Theorem c12_scanner_lexer_agree_printed : forall (lower : N -> N) (printable : N
   /\ (texts_ok t = true -> lex (print lower printable t) = LOk (ptoks lower printable t)).
 Proof. exact scanner_lexer_agree_printed_stmt. Qed.
 Print Assumptions c12_scanner_lexer_agree_printed.
+
+(* Sentence 3 as the property words it - for EVERY expression - is false (F10b; the inputs of the two known: lines
+   scanner-lexer-agree / scanner-parser-agree:literal-ends-in-backslash-before-later-quote): (a) the scanner ends the
+   expression  "a\\" & ")"  where the parser cannot (syntax error on exactly the text the scanner cut out); (b) the parser
+   takes  "a\\" & "  for one text literal where the scanner finds no end at all.  What holds is c12_literal_one_token
+   and c12_scanner_lexer_agree_printed above. *)
+Theorem c12_scanner_parser_agree_refuted :
+  (exists e, closed_expr e /\ exists ts, lex e = LOk ts /\ parse_tokens ts = PSyntax)
+  /\ (exists e v, unterminated e /\ lex e = LOk [tok TEXT e] /\ parse_tokens [tok TEXT e] = POk (EText v)).
+Proof. exact scanner_parser_agree_refuted. Qed.
+Print Assumptions c12_scanner_parser_agree_refuted.
